@@ -94,6 +94,17 @@ def alphabet(F, rng):
     add(1, 'read_crossline_number', [v_xl])
     add(1, 'read_zslice_coord', [2 * min(2, nz - 1)])
     add(1, 'get_trace_by_coord', [t0, 2, 2 * min(nz, 5)])
+    # the last valid argument and the first one past it (a refusal must not depend on what was read before)
+    add(1, 'read_zslice', [nz - 1])
+    add(1, 'read_zslice', [nz])
+    add(1, 'read_inline', [ni - 1])
+    add(1, 'read_inline', [ni])
+    add(5, 'read_zslice', [nz])
+    # a slice of lines through the emulator (judged on its first line)
+    if ni >= 3:
+        A.append({'r': 3, 'op': 'read_inline', 'a': [ni - 2], 'slice': True})
+    if nx >= 3:
+        A.append({'r': 4, 'op': 'read_crossline', 'a': [nx - 2], 'slice': True})
     add(2, 'close', [])
     return A
 
@@ -180,7 +191,19 @@ def do_call(objs, fc, c, ans):
             except BaseException as e:
                 return False, f'raise {type(e).__name__}'
             return bool(np.array_equal(got, exp)), f'array first={np.asarray(got).ravel()[:4].tolist()}'
-        out = readcalls.invoke(o, op, a)
+        if c.get('slice'):          # accessor[n : n + 2 steps : step] -> lines n, n + 1 (segyio's slice by line number); the first one is compared
+            emu = objs.obj['emu']
+            ax = np.asarray(emu.ilines if r == 3 else emu.xlines)
+            d = int(ax[1] - ax[0])
+            try:
+                got = [np.array(x, copy=True) for x in o[int(ax[a[0]]):int(ax[a[0]]) + 2 * d:d]]
+                out = ('value', got[0]) if len(got) == 2 else ('raise', 'WrongLength', ['WrongLength'])
+            except BaseException as e:
+                if isinstance(e, (KeyboardInterrupt, SystemExit, MemoryError)):
+                    raise
+                out = ('raise', type(e).__name__, [k.__name__ for k in type(e).__mro__])
+        else:
+            out = readcalls.invoke(o, op, a)
     grid = [x for x in ans['alts'] if x['kind'] == 'header']
     return readcalls.compare(out, ans['alts'], fc.ref, header_of=(lambda t: fc.header(grid[0]['grid'])) if grid else None)
 
@@ -188,7 +211,7 @@ def do_call(objs, fc, c, ans):
 def history_result(fc, A, answers, h, preload, K):
     """-> (case, ok, step, detail)"""
     objs = Objects(fc, preload, K)
-    case = {'file': fc.label, 'preload': preload, 'K': K, 'history': [[A[i - 1]['r'], A[i - 1]['op'], A[i - 1]['a']] for i in h]}
+    case = {'file': fc.label, 'preload': preload, 'K': K, 'history': [[A[i - 1]['r'], A[i - 1]['op'], A[i - 1]['a']] + (['slice'] if A[i - 1].get('slice') else []) for i in h]}
     sib = None
     try:
         if getattr(fc, 'sibling', None):        # a reader on ANOTHER file of the same geometry, alive at the same time, is asked the same things first
@@ -331,7 +354,7 @@ def run(run):
     for item, res in zip(items, par.pmap(_worker, items)):
         if isinstance(res, par.Crash):
             fc, A, answers, K = jobs[item[0]]
-            res = ({'file': fc.label, 'preload': item[2], 'K': K, 'history': [[A[i - 1]['r'], A[i - 1]['op'], A[i - 1]['a']] for i in item[1]]},
+            res = ({'file': fc.label, 'preload': item[2], 'K': K, 'history': [[A[i - 1]['r'], A[i - 1]['op'], A[i - 1]['a']] + (['slice'] if A[i - 1].get('slice') else []) for i in item[1]]},
                    False, 0, f'worker process died ({res})')
         if merge(run, res):
             run.traces_validated += 1
@@ -341,7 +364,7 @@ def run(run):
 def replay(run, rep):
     case = rep['case']
     fc = [c for c in files_for(run) if c.label == case['file']][0]
-    A = [{'r': r, 'op': op, 'a': a} for r, op, a in case['history']]
+    A = [dict({'r': e[0], 'op': e[1], 'a': e[2]}, **({'slice': True} if len(e) > 3 else {})) for e in case['history']]
     answers = session.eval_calls([fc], [(0, c['op'] if c['op'] not in ('close', 'get_tracefield_values') else 'read_volume',
                                          c['a'] if c['op'] not in ('close', 'get_tracefield_values') else []) for c in A], run)
     replay_history(run, fc, A, answers, tuple(range(1, len(A) + 1)), case['preload'], case['K'], rep['clause'])
